@@ -74,5 +74,121 @@ theorem C20_cross_network (n n' : Net) (k : Kind) (hne : n ≠ n') (b : UInt8) (
 /-- the generated table really rejects the empty blob before indexing (otherwise `bytes[0]` would panic) -/
 theorem C20_empty_guard : Gen.addrTypeEmptyIsError = true := by decide
 
+/-! ## added after the audit: the three generated tables tied to each other and to one total by-the-book function -/
+
+/-- ONE total characterisation of the address-type lookup: on EVERY blob (any length, any content, the empty one
+included) and under every network the model of `AddressType::from_slice` is the by-the-book function `Spec.addrType`
+(Spec/Tags.lean) — the function relation C executes for the `addrtype` operation. -/
+theorem C20_type_total (net : Net) (bytes : Bytes) : addrTypeOf net bytes = Spec.addrType net bytes := by
+  cases bytes with
+  | nil => rfl
+  | cons b rest =>
+    have := arm_table net (Net.mem_all net) b.toNat (List.mem_range.2 b.toNat_lt)
+    simp only [addrTypeOf, Spec.addrType, this]
+    cases hu : Spec.untag b.toNat with
+    | none => rfl
+    | some nk =>
+      obtain ⟨n', k⟩ := nk
+      by_cases hn : n' = net
+      · subst hn; cases k <;> simp
+      · simp [hn]
+
+/-- the forward table names nine distinct bytes (stated on the generated `asU8`, not on the reference table) and every
+one of them fits a byte: `UInt8.ofNat` in `Address::as_bytes` does not wrap and `getD 0` never takes its default -/
+theorem C20_asU8_injective (n n' : Net) (k k' : Kind) (t : Nat) (h : asU8 n k = some t) (h' : asU8 n' k' = some t) :
+    n = n' ∧ k = k' := by
+  rw [C20_table] at h h'
+  exact C20_injective n n' k k' ((Option.some.inj h).trans (Option.some.inj h').symm)
+
+theorem C20_asU8_lt (n : Net) (k : Kind) :
+    ∃ t, asU8 n k = some t ∧ t < 256 ∧ (UInt8.ofNat t).toNat = t ∧ (asU8 n k).getD 0 = t := by
+  refine ⟨Spec.tag n k, C20_table n k, ?_, ?_, by rw [C20_table]; rfl⟩ <;> cases n <;> cases k <;> decide
+
+/-- byte → pair → byte: whatever the address-type lookup accepts under `net`, its first byte is a byte the network
+lookup maps to `net` AND the byte the forward table gives for `(net, k)`; the payment id has 8 bytes exactly for
+integrated addresses (the slice `65..73` is never cut short by `take`) and none otherwise -/
+theorem C20_decode_encode (net : Net) (k : Kind) (p : Bytes) (b : UInt8) (rest : Bytes)
+    (h : addrTypeOf net (b :: rest) = some (k, p)) :
+    fromU8 b.toNat = some net ∧ asU8 net k = some b.toNat ∧ p.length = (if k = .Integrated then 8 else 0) ∧
+      p = if k = .Integrated then ((b :: rest).drop 65).take 8 else [] := by
+  rw [C20_type_total] at h
+  simp only [Spec.addrType] at h
+  cases hu : Spec.untag b.toNat with
+  | none => simp [hu] at h
+  | some nk =>
+    obtain ⟨n', k'⟩ := nk
+    simp only [hu] at h
+    by_cases hn : n' = net
+    · subst hn
+      have ht : Spec.tag n' k' = b.toNat := by
+        revert hu; unfold Spec.untag; intro hu
+        have := List.find?_some hu; simpa using this
+      simp only [ne_eq, not_true_eq_false, if_false] at h
+      by_cases hk : k' = .Integrated
+      · subst hk
+        simp only [if_true] at h
+        by_cases hl : (b :: rest).length < 73
+        · rw [if_pos hl] at h; exact absurd h (by simp)
+        · rw [if_neg hl] at h
+          simp only [Option.some.injEq, Prod.mk.injEq] at h
+          obtain ⟨rfl, rfl⟩ := h
+          refine ⟨by rw [C20_network_of_byte, hu]; rfl, by rw [C20_table, ht], ?_, by simp⟩
+          simp only [if_true, List.length_take, List.length_drop]
+          simp only [List.length_cons] at hl ⊢; omega
+      · simp only [hk, if_false, Option.some.injEq, Prod.mk.injEq] at h
+        obtain ⟨rfl, rfl⟩ := h
+        exact ⟨by rw [C20_network_of_byte, hu]; rfl, by rw [C20_table, ht], by simp [hk], by simp [hk]⟩
+    · simp [hn] at h
+
+/-- pair → byte → pair, on the generated tables directly: the byte `as_u8` gives for `(n, k)` is mapped back to `n` by
+`from_u8` and to `k` (under `n`) by `from_slice`, whatever follows it (integrated: at least 72 more bytes) -/
+theorem C20_encode_decode (n : Net) (k : Kind) (b : UInt8) (rest : Bytes) (h : asU8 n k = some b.toNat)
+    (hl : k = .Integrated → 72 ≤ rest.length) :
+    fromU8 b.toNat = some n ∧ ∃ p, addrTypeOf n (b :: rest) = some (k, p) := by
+  rw [C20_table] at h
+  have hb : b.toNat = Spec.tag n k := (Option.some.inj h).symm
+  refine ⟨by rw [hb]; exact C20_network_inverse n k, ?_⟩
+  rw [C20_type_lookup n k b rest hb]
+  by_cases hk : k = .Integrated
+  · have := hl hk
+    simp only [hk, if_true, List.length_cons]
+    rw [if_neg (by omega)]; exact ⟨_, rfl⟩
+  · simp only [hk, if_false]; exact ⟨_, rfl⟩
+
+/-- the network lookup accepts a byte for `n` exactly when the forward table produces that byte for `n` and some type:
+the two tables regenerated from src/network.rs agree with each other (no reference table involved in the statement) -/
+theorem C20_tables_agree (b : UInt8) (n : Net) : fromU8 b.toNat = some n ↔ ∃ k, asU8 n k = some b.toNat := by
+  constructor
+  · intro h
+    rw [C20_network_of_byte] at h
+    cases hu : Spec.untag b.toNat with
+    | none => simp [hu] at h
+    | some nk =>
+      obtain ⟨n', k⟩ := nk
+      simp only [hu, Option.map_some, Option.some.injEq] at h
+      subst h
+      refine ⟨k, ?_⟩
+      have := List.find?_some hu
+      rw [C20_table]; simpa using this
+  · rintro ⟨k, h⟩
+    rw [C20_table] at h
+    rw [← Option.some.inj h]; exact C20_network_inverse n k
+
+/-- every row of the regenerated `from_slice` table is well formed: the payment-id range `lo..hi` lies inside the
+minimum length the row demands (`lo ≤ hi ≤ minLen`, so `bytes[lo..hi]` cannot be out of range once the length test
+passed and `drop`/`take`/truncated subtraction in `addrTypeOf` hide nothing), it has 8 bytes exactly in the integrated
+rows and is empty in the others -/
+theorem C20_rows_wf : ∀ e ∈ Gen.addrType,
+    e.2.2.2.2.1 ≤ e.2.2.2.2.2 ∧ e.2.2.2.2.2 ≤ e.2.2.2.1 ∧
+      e.2.2.2.2.2 - e.2.2.2.2.1 = (if e.2.2.1 = .Integrated then 8 else 0) := by decide
+
+/-- the empty blob, read together with the source: the regenerated flag says the code tests `is_empty()` before it
+indexes `bytes[0]` (so there is no panic), and the model and the by-the-book function both reject it under every network -/
+theorem C20_type_lookup_empty_guarded (net : Net) :
+    Gen.addrTypeEmptyIsError = true ∧ addrTypeOf net [] = none ∧ Spec.addrType net [] = none := ⟨by decide, rfl, rfl⟩
+
+example : asU8 .Testnet .SubAddress = some (63 : UInt8).toNat := by decide
+example : addrTypeOf .Stagenet (25 :: List.replicate 72 0) = some (.Integrated, List.replicate 8 0) := by decide
+
 example : addrTypeOf .Mainnet (19 :: List.replicate 76 7) = some (.Integrated, List.replicate 8 7) := by decide
 end C20
